@@ -1204,7 +1204,7 @@ impl Prop for C19 {
         "C19"
     }
     fn rule(&self) -> &'static str {
-        "write script (0-16 steps of put_char, put_code, nl, write, writeq, write_canonical, format with ~a ~d ~w ~s ~n ~~ ~c, clauses `term.` + layout, put_byte, flush, wrong-type output; optionally continued in append mode) on a file stream, the file compared byte by byte with the modelled output; then a read script (0-30 steps of get_char, peek_char, get_code, peek_code (also with bound arguments), get_byte, peek_byte, get_n_chars (bound and unbound count), get_line_to_chars, read_term at clause starts and at the end, at_end_of_stream, stream_property position / end_of_stream, saving a position and set_stream_position back to it, wrong-type input) with options type(text|binary) x eof_action(error|eof_code|reset) x reposition(bool) against a model stream (bytes, cursor, past-end flag, lines read by read_term); payload alphabet covers 1-4 byte UTF-8 incl. the boundary code points, newlines, CR, controls; non-trivial = text: a peek directly before a multi-byte character AND a read at/past the end AND a position query after a consumed newline; binary: a read at/past the end in a script of >= 3 steps; distinct by case encoding"
+        "write script (0-16 steps of put_char, put_code, nl, write, writeq, write_canonical, format with ~a ~d ~w ~s ~n ~~ ~c, clauses `term.` + layout, put_byte, flush, wrong-type output; optionally continued in append mode) on a file stream, the file compared byte by byte with the modelled output; then a read script (0-30 steps of get_char, peek_char, get_code, peek_code (also with bound arguments), get_byte, peek_byte, get_n_chars (bound and unbound count), get_line_to_chars, read_term at clause starts and at the end, at_end_of_stream, stream_property position / end_of_stream, saving a position and set_stream_position back to it, wrong-type input) with options type(text|binary) x eof_action(error|eof_code|reset) x reposition(bool) against a model stream (bytes, cursor, past-end flag, lines read by read_term); payload alphabet covers 1-4 byte UTF-8 incl. the boundary code points, newlines, CR, controls; a second, smaller stream of cases runs the same read scripts on an in-memory stream (user_input of a machine built from the content as a string; text, eof_code, no reposition); non-trivial = text: a peek directly before a multi-byte character AND a read at/past the end AND a position query after a consumed newline; binary and in-memory: a read at/past the end in a script of >= 3 steps; distinct by case encoding"
     }
     fn assumptions(&self) -> Vec<String> {
         vec![
